@@ -328,4 +328,12 @@ def standard_lean_phase(run: Run, props_mod, cert_mod=None, extra_mods=()):
             b = run.breakage(f'{mod} no longer checks', '\n'.join(errs))
             if mod == cert_mod:
                 run.cert_breakage = b
+    if run.tier == 'thorough' and props_ok and cert_ok:
+        # independent re-check of the compiled modules by the toolchain's leanchecker
+        mods = [props_mod] + ([cert_mod] if cert_mod else [])
+        with Lock('lake.lock'):
+            rc, out = sh(['lake', 'env', 'leanchecker'] + mods, cwd=LEAN)
+        run.obligation('leanchecker ' + ' '.join(m.split('.')[-2] + '.' + m.split('.')[-1] for m in mods), rc == 0, out[-300:])
+        if rc != 0:
+            run.breakage('leanchecker rejects ' + ' '.join(mods), out[-2000:])
     return props_ok, cert_ok
